@@ -119,7 +119,30 @@ class Graph:
             import copy
             return {k: R().visit(copy.deepcopy(v)) for k, v in out.items()}
 
-        def visit(m, q, depth, b):
+        self.callctx = getattr(self, "callctx", {})
+
+        def enclosing_ifs(fn, call):
+            """[(test, polarity)] of the ifs around `call` in fn (outermost first)"""
+            path = []
+
+            def walk(stmts, acc):
+                for st in stmts:
+                    if any(x is call for x in ast.walk(st)):
+                        if isinstance(st, ast.If):
+                            if any(x is call for b_ in st.body for x in ast.walk(b_)):
+                                return walk(st.body, acc + [(st.test, True)])
+                            if any(x is call for b_ in st.orelse for x in ast.walk(b_)):
+                                return walk(st.orelse, acc + [(st.test, False)])
+                            return acc
+                        for fld in ("body", "orelse", "finalbody"):
+                            v = getattr(st, fld, None)
+                            if isinstance(v, list) and v and any(x is call for b_ in v for x in ast.walk(b_)):
+                                return walk(v, acc)
+                        return acc
+                return acc
+            return walk(fn.body, path)
+
+        def visit(m, q, depth, b, cctx):
             if (m, q) in seen or depth > 6:
                 return
             fn = self.func(m, q)
@@ -127,13 +150,14 @@ class Graph:
                 return
             seen.add((m, q))
             self.binds[(m, q)] = b
+            self.callctx[(m, q)] = cctx
             order.append((m, q, fn))
             for idx, m2, q2, call in self.callees(m, q, fn):
                 if q2 in stop:
                     break
                 f2 = self.func(m2, q2)
-                visit(m2, q2, depth + 1, bind(f2, call, b, "." in q2) if f2 is not None else {})
-        visit(mod, qual, 0, {})
+                visit(m2, q2, depth + 1, bind(f2, call, b, "." in q2) if f2 is not None else {}, cctx + enclosing_ifs(fn, call))
+        visit(mod, qual, 0, {}, [])
         return order
 
 
@@ -489,6 +513,9 @@ def _per_sensor_size(l, r, env):
     return "sensor_noises[" in txt and ("len(" in txt or "sensor_size" in txt)
 
 
+CLASS_ATTRS: Dict[str, Optional[ast.AST]] = {}      # class-level `NAME = <literal>` of the analysed modules (None when the name is bound more than once)
+
+
 def _loop_pairs(loop: ast.For, fn):
     """pairs of roles a `for a, b in <pairs>` loop ranges over, when <pairs> is a literal-based idiom"""
     env = local_env(fn)
@@ -496,9 +523,14 @@ def _loop_pairs(loop: ast.For, fn):
     def lit(e):
         if isinstance(e, ast.Name) and e.id in env:
             e = env[e.id]
+        if isinstance(e, ast.Attribute) and isinstance(e.value, ast.Name) and e.value.id in ("self", "cls") and CLASS_ATTRS.get(e.attr) is not None:
+            e = CLASS_ATTRS[e.attr]            # a class-level constant (`_ROLES = ("state", "calibration", "control")`)
         if isinstance(e, (ast.List, ast.Tuple)):
             rs = []
             for x in e.elts:
+                if isinstance(x, ast.Constant) and isinstance(x.value, str):
+                    rs.append(ROLES.get(x.value))        # role names, read back with getattr(self, <name>)
+                    continue
                 if isinstance(x, (ast.Tuple, ast.List)) and x.elts:
                     cand = [role_of(y, env) for y in x.elts]
                     cand = [c for c in cand if c in ("STATE", "CONTROL", "CALIB")]
@@ -646,6 +678,8 @@ def accept_rule(ctx: core.Ctx, graph: "Graph"):
                     node = up
                 if not conds or deciding is None:
                     continue
+                # the conditions under which this function is called at all (the ifs around its call site, transitively)
+                conds += [(rtmodel.py_expr(t_), pol_) for t_, pol_ in graph.callctx.get((m, q), [])]
                 lits = estflow.literals(conds)
                 dl = estflow.literals(deciding)
                 if lits is None or dl is None:
@@ -679,6 +713,13 @@ def run(ctx: core.Ctx) -> int:
                    ("CONTAINER", "no guard applies set algebra / equality to a raw user container")):
         ctx.rule(rid, t)
     graph = Graph(ctx)
+    CLASS_ATTRS.clear()
+    for _m in graph.mods.values():
+        for _c in ast.walk(_m):
+            if isinstance(_c, ast.ClassDef):
+                for _s in _c.body:
+                    if isinstance(_s, ast.Assign) and len(_s.targets) == 1 and isinstance(_s.targets[0], ast.Name):
+                        CLASS_ATTRS[_s.targets[0].id] = None if _s.targets[0].id in CLASS_ATTRS else _s.value
     # shared constructor
     uim = core.need(graph.func("ui_model", "Model.__init__"), "ui_model.Model.__init__")
     ui_cells: Dict[str, Guard] = {}
@@ -687,14 +728,23 @@ def run(ctx: core.Ctx) -> int:
     ui_weak = {}
     ui_inverted = []
     ui_toothless = []
-    for g in guards_of("ui_model", "Model.__init__", uim):
+    ui_guards = []
+    for m_, q_, f_ in graph.reach("ui_model", "Model.__init__"):
+        # the constructor and the private stages it is split into
+        if m_ != "ui_model":
+            continue
+        BINDS[id(f_)] = graph.binds.get((m_, q_), {})
+        if q_ != "Model.__init__":
+            ctx.functions.append(f"ui_model.{q_} (reached from Model.__init__)")
+        ui_guards += [(g, f_) for g in guards_of(m_, q_, f_)]
+    for g, uim_f in ui_guards:
         if g.toothless:
-            ui_toothless += [(c, g) for c in classify(g, uim, graph) if "|" not in c]
+            ui_toothless += [(c, g) for c in classify(g, uim_f, graph) if "|" not in c]
             continue
         all_guards += 1
-        cs = classify(g, uim, graph)
+        cs = classify(g, uim_f, graph)
         if not cs:
-            ui_unclassified.append((g, uim))
+            ui_unclassified.append((g, uim_f))
         for c in cs:
             if c.startswith("inverted|"):
                 ui_inverted.append((c.split("|", 1)[1], g))
